@@ -1492,9 +1492,14 @@ class FileBuilder:
         dirs_to_make = self._dirs_to_make(dir_, None)
         made_dirs = []
         for parent in dirs_to_make:
+            norm_cased_parent = os.path.normcase(parent)
             if (os.path.isfile(parent) and
                     self._old_cache.created_norm_cased_file(
-                        os.path.normcase(parent)) and
+                        norm_cased_parent) and
+                    # A file we are building right now is not a leftover
+                    # output file, even though it doesn't exist virtually
+                    not self._new_cache.has_norm_cased_file(
+                        norm_cased_parent) and
                     self._backups.back_up_and_remove(parent)):
                 logger.info(
                     'Moved {:s} to a temporary directory, in order to create '
